@@ -22,7 +22,7 @@ TablesJudge(ev) == LET f == ev.f q == Q(f) IN
   LET expOK == /\ Len(ev.y) = q /\ ev.y[1] = 1
                /\ \A i \in 1..(q - 1) : IsElem(f, ev.y[i]) /\ ev.y[i + 1] = MulRef(f, ev.y[i], 2)
       logOK == /\ Len(ev.w) = q - 1
-               /\ \A x \in 1..(q - 1) : ev.w[x] \in 0..(q - 2) /\ Exp(f, ev.w[x]) = x
+               /\ \A x \in 1..(q - 1) : ev.w[x] \in 0..(q - 1) /\ Exp(f, ev.w[x]) = x     \* alpha^Log(x) = x
       invOK == /\ Len(ev.z) = q - 1
                /\ \A x \in 1..(q - 1) : ev.z[x] \in 1..(q - 1) /\ MulRef(f, x, ev.z[x]) = 1
   IN IF expOK /\ logOK /\ invOK /\ ev.err = 0 /\ ev.panic = 0 THEN <<>>
@@ -42,11 +42,16 @@ EncOK(ev) == LET f == ev.f r == ev.a[1] k == Len(ev.x) IN
 EncJudge(ev) == IF ~ShapeOK(ev) THEN <<"input">>
                 ELSE IF ev.err = 0 /\ ev.panic = 0 /\ EncOK(ev) THEN <<>> ELSE <<"enc", ev.err, ev.panic>>
 
-ErrsOK(ev, n) == \A i \in 1..Len(ev.e) : /\ Len(ev.e[i]) = 2 /\ ev.e[i][1] \in 0..(n - 1) /\ IsElem(ev.f, ev.e[i][2])
+ErrsOK(ev, n) == /\ \A i \in 1..Len(ev.e) : /\ Len(ev.e[i]) = 2 /\ ev.e[i][1] \in 0..(n - 1) /\ IsElem(ev.f, ev.e[i][2])
+                 /\ Cardinality({ev.e[i][1] : i \in 1..Len(ev.e)}) = Len(ev.e)                \* distinct positions
+(* w is y with magnitude m added at every listed position and nothing else changed *)
+Corrupted(ev) == /\ Len(ev.w) = Len(ev.y)
+                 /\ \A i \in 1..Len(ev.e) : ev.w[ev.e[i][1] + 1] = ev.y[ev.e[i][1] + 1] ^^ ev.e[i][2]
+                 /\ DiffPos(ev.w, ev.y) \subseteq {ev.e[i][1] + 1 : i \in 1..Len(ev.e)}
 DecJudge(ev) == LET f == ev.f r == ev.a[1] n == Len(ev.x) + r IN
   IF ~ShapeOK(ev) \/ ~ErrsOK(ev, n) THEN <<"input">>
   ELSE IF ~(ev.err = 0 /\ ev.panic = 0 /\ EncOK(ev)) THEN <<"enc", ev.err, ev.panic>>     \* err of a dec event = Decode's
-  ELSE IF ev.w # Corrupt(ev.y, ev.e, 1) THEN <<"harness">>
+  ELSE IF ~Corrupted(ev) THEN <<"harness">>
   ELSE LET nerr == Cardinality(DiffPos(ev.w, ev.y)) IN
        IF nerr <= T(r)
        THEN IF ev.derr = 0 /\ ev.dpanic = 0 /\ ev.z = ev.y THEN <<>> ELSE <<"dec", nerr, ev.derr, ev.dpanic>>
